@@ -214,6 +214,12 @@ class DataPacketReceiver(Elaboratable):
                     # Move to receiving data.
                     m.next = "RECEIVE_PAYLOAD"
 
+                    # A zero-length payload consists of its CRC32 only: the next word is the (word
+                    # aligned) CRC itself, which must be checked rather than consumed as payload.
+                    with m.If(header.dw1[16:][:len(data_bytes_remaining)] == 0):
+                        m.d.ss += previous_valid.eq(0b1111)
+                        m.next = "CHECK_CRC32"
+
                 # If our data is valid and we're -not- a start of DPP, this isn't for us.
                 # Go back to watching for data.
                 with m.Elif(sink.valid):
